@@ -288,7 +288,7 @@ def cases(draw):
         lang = draw(st.sampled_from(("py", "ts", "js")))
         nfiles = draw(st.integers(2, 3))
         noise = [{"lead": draw(st.integers(0, 3)), "doc": draw(st.integers(0, 4)), "inside": draw(st.lists(st.integers(0, 27), max_size=3)),
-                  "sep": draw(st.sampled_from([0, 0, 1, 2, 3, 4, 5, 6, 7, 8]))}
+                  "sep": draw(st.sampled_from([0, 0, 1, 2, 3, 4, 5, 6, 7, 8])), "blockc": draw(st.sampled_from([0, 0, 2, 3, 5]))}
                  for _ in range(nfiles)]
         return {"kind": "dry", "lang": lang, "nfiles": nfiles, "n": draw(st.integers(4, 7)), "noise": noise, "cmds": ["dry"]}
     if draw(st.integers(0, 11)) == 0:
